@@ -684,6 +684,9 @@ func (e *Engine) trCall(env *SpecEnv, n SCall) Val {
 		}
 		_, ub := e.boxFns(t)
 		return Val{T: "(" + ub + " " + x.T + ")", S: e.sortOf(t), GoT: t}
+	case "trimSpace":
+		e.sc.declareFun("trimSpace", []string{"String"}, "String")
+		return Val{T: "(trimSpace " + arg(0).T + ")", S: "String", GoT: tString}
 	case "pathClean", "pathDir", "pathBase":
 		e.sc.declareFun(id.Name, []string{"String"}, "String")
 		return Val{T: "(" + id.Name + " " + arg(0).T + ")", S: "String", GoT: tString}
